@@ -58,6 +58,21 @@ CLAIMED = {
         technique="symbolic execution (CrossHair/z3) of real parser+evaluator vs tree oracle, path-tree exhaustion",
         ref="3/C04",
     ),
+    "C05": dict(
+        text="Symbolic execution of the real constructors, name checker, directive handlers and finalize on in-memory "
+        "definitions. Numeric rules have the number symbolic and unbounded: version (major, minor), fixed port-ID x "
+        "subject/service x standard/vendor root x allow flag, array capacity in the three bracket forms, @extent; accepted "
+        "<=> the rule, both through the constructors and through text. check_name is run on a symbolic str of length <= 1 "
+        "(exhausted; 2 exhausted in the thorough tier), and a z3 regular-language obligation shows that the live reserved "
+        "patterns denote the Specification's list over [a-z0-9_]{1,12} (24 thorough). Structural rules: 45 violations and 4 "
+        "benign edits applied singly and in pairs at 4 positions to valid struct/union/delimited/deprecated skeletons as "
+        "message, request and response (choice-exhaustive); bit widths 0..70 x 10 keywords; 64 reserved/near-miss words x "
+        "16 letter-case patterns in 5 naming positions; every rejection must be an InvalidDefinitionError.",
+        note="Skeletons, violation list and word list are scaffolding. Error-message formatting is stubbed when an argument "
+        "is symbolic. One defect found and repaired (a name containing U+212A was accepted).",
+        technique="symbolic execution (CrossHair/z3) of real rule checks vs rule oracle + z3 regex-equivalence lemma",
+        ref="3/C05",
+    ),
     "C06": dict(
         text="Symbolic execution of the real serialize/deserialize: per condition a catalogue type, a seeded template "
         "value (array lengths, union variants) and up to 2 (quick) / 3 (thorough) integer leaves made symbolic over three "
@@ -200,7 +215,7 @@ def main() -> None:
             {
                 "name": "lemma",
                 "path": "vp/lemma.py",
-                "serves_properties": ["C01", "C16"],
+                "serves_properties": ["C01", "C05"],
                 "kind_free_text": "QF_BV obligations (sumset stabilisation in Z_d) discharged by z3, cross-checked with cvc5",
             },
         ],
